@@ -166,6 +166,7 @@ func H03_Ptr() {
 // proto-compatible writer: repeated fields are skipped one element at a time
 func H03_CountedProto() {
 	setBounds()
+	B.Slice = 2 // at least two repeated elements, also in the quick tier
 	p := newPlenc(cfgProto)
 	var x V_KxCounted
 	x.Fill("s")
@@ -302,4 +303,30 @@ func H03_FirstHigh() {
 		vrt.Assert("absent field keeps prior value", prior.Bee == before.Bee)
 	}
 	vrt.Assert("added field untouched", prior.New == before.New)
+}
+
+// H03_ProtoTagged: removed proto-tagged slice and map fields with two entries.
+func H03_ProtoTagged() {
+	setBounds()
+	B.Slice, B.Map = 2, 2
+	FillSmall = true
+	p := newPlenc(cfgDef)
+	var x V_TProtoM
+	x.Fill("m")
+	var y V_TProtoS
+	y.Fill("s")
+	FillSmall = false
+	type sLess struct {
+		Z int `plenc:"2"`
+	}
+	d, err := p.Marshal(nil, &x.V)
+	vrt.Assert("marshal ok", err == nil)
+	var ml sLess
+	vrt.Assert("removed proto map skipped", p.Unmarshal(d, &ml) == nil)
+	vrt.Assert("surviving field after repeated unknown map entries", ml.Z == x.V.Z)
+	d2, err := p.Marshal(nil, &y.V)
+	vrt.Assert("marshal ok", err == nil)
+	var sl sLess
+	vrt.Assert("removed proto slice skipped", p.Unmarshal(d2, &sl) == nil)
+	vrt.Assert("surviving field after repeated unknown fields", sl.Z == y.V.Z)
 }
